@@ -7,7 +7,7 @@ fn scale(tier: &str, quick: usize) -> usize {
     if tier == "thorough" {
         quick * 20
     } else if tier == "amp" {
-        quick * 6
+        quick * 10
     } else {
         quick
     }
